@@ -587,6 +587,10 @@ class EngineC13:
 
     def _judge_triple(self, V, x, out, kind, split, nnz, nzeros, label):
         subs, vals, wgts = out
+        if np.size(vals) > 1 and np.shape(vals) != np.shape(wgts):
+            # values and weights are multiplied element by element by the estimators: a column against a vector
+            # broadcasts to a square array and every estimate built on the sample is silently wrong
+            return V("sample_triple_is_consistent", f"{label}: values of shape {np.shape(vals)} against weights of shape {np.shape(wgts)}")
         subs = np.asarray(subs)
         vals = np.asarray(vals, dtype=float).reshape(-1)
         wgts = np.asarray(wgts, dtype=float).reshape(-1)
